@@ -396,6 +396,9 @@ func (ln *Listener) Accept() (net.Conn, error) {
 			c.Handed = true
 			ln.n.W.Logf("accept ln%d conn=%d", ln.id, c.id)
 			ln.n.mu.Unlock()
+			// a scheduling point with the accepted connection in hand (the goroutine may be held here
+			// while the rest of the system moves on: the late-accept window)
+			simhook.Resume("net.Accept.ret")
 
 			return c, nil
 		}
